@@ -4,7 +4,7 @@ from vlib import g1check
 PROPERTY = "C20"
 LEVEL = "exploration"
 RULE = ("(Mode leg, run first: the first-use self-test is made to fail once by a trace function; set_trickery_enabled(None) afterwards must bring auto-detection back - trickery in force on CPython.) Also G2 await / yield-from / async-generator chains in which some frames hold managers open (coroutine, generator and async-generator frames reached through other frames: await, asend, __anext__, async for, yield from), every frame of the extracted stack listing exactly its own open managers (referents mode). "
-        "Also a leg over managers the harness cannot instrument: linear nests (1-4 with / async with statements, 1-3 items; a third of the items enter the manager object of an earlier item again - re-entrant / reusable managers, the same object active in two blocks of one frame - and async items may be managers whose __aexit__ suspends, giving observation points with an exiting context) of standard-library managers (and, in trickery mode, a MagicMock used as a manager: its exit callable is no bound method, so its context may have obj None, nothing else may suffer), seven kinds of them implemented in C (threading.Lock / RLock, StringIO, BytesIO, memoryview, decimal.localcontext, file objects), the others in Python (nullcontext, suppress, closing, ExitStack, Condition, Semaphore, redirect_stdout, AsyncExitStack, aclosing), observed at every suspension point in referents mode against the statically known active set (identity, order, is_async). "
+        "Also a leg over managers the harness cannot instrument: linear nests (1-4 with / async with statements, 1-3 items; a third of the items enter the manager object of an earlier item again - re-entrant / reusable managers, the same object active in two blocks of one frame - and async items may be managers whose __aexit__ suspends, giving observation points with an exiting context) of standard-library managers (and, in trickery mode, a MagicMock used as a manager, and a type whose __exit__ is a callable object whose __getattr__ raises RuntimeError: the exit callable is no bound method, so its context may have obj None, nothing else may suffer), seven kinds of them implemented in C (threading.Lock / RLock, StringIO, BytesIO, memoryview, decimal.localcontext, file objects), the others in Python (nullcontext, suppress, closing, ExitStack, Condition, Semaphore, redirect_stdout, AsyncExitStack, aclosing), observed at every suspension point in referents mode against the statically known active set (identity, order, is_async). "
         "G1 with-programs (generator / coroutine / async generator; a quarter of them holding a dead weakref proxy, a lazy object whose __class__ is computed, a bound method of a nameless callable, of a proxy whose __getattr__ raises, and of a callable whose __name__ refuses comparison, in their locals) observed at every suspension point with "
         "set_trickery_enabled(False) on CPython 3.9-3.12. Oracle against the managers' shadow stack: every truly active "
         "manager occurs, in order, with the right obj and is_async; there is an is_exiting entry (last, right obj) iff an exit "
